@@ -160,7 +160,16 @@ pub fn monitor(out: &RunOut) -> MonOut {
             m.count("requests_with_model_state");
             m.sig(format!("{:?}|apps{}|{:?}", x.kind, apps.len(), ctx.params));
             let ids: Vec<String> = apps.iter().filter_map(|a| str_field(a, "appid")).collect();
-            let state_ids: Vec<String> = state.iter().map(|a| a.id.clone()).collect();
+            // apps appear once each, in first-insertion order
+            let mut state_ids: Vec<String> = vec![];
+            for a in state.iter() {
+                if !state_ids.contains(&a.id) {
+                    state_ids.push(a.id.clone());
+                }
+            }
+            if state_ids.len() != state.len() {
+                m.count("requests_with_repeated_app_ids");
+            }
             if x.kind != ReqKind::Event && x.kind != ReqKind::Other {
                 if ids != state_ids {
                     m.viol(p, "R3", &site, format!("{:?} request lists apps {:?}, the app set is {:?}", x.kind, ids, state_ids));
@@ -252,7 +261,11 @@ pub fn monitor(out: &RunOut) -> MonOut {
                                 {
                                     m.viol(p, "R5", &site, format!("app {id}: event object {e} is not in protocol form"));
                                 }
-                                if e.get("previousversion").and_then(|v| v.as_str()) != Some(ver.as_str()) {
+                                // with a repeated app id the state machine adds one event per listed entry,
+                                // each with that entry's version; the builder keeps them all in insertion order
+                                let vers: Vec<String> = state.iter().enumerate().filter(|(_, s)| s.id == id).filter_map(|(k, _)| l.versions.get(k).map(|v| four_part(v))).collect();
+                                let pv = e.get("previousversion").and_then(|v| v.as_str()).unwrap_or("");
+                                if !vers.iter().any(|v| v == pv) {
                                     m.viol(p, "R5", &site, format!("app {id}: event previousversion {:?} expected {ver}", e.get("previousversion")));
                                 }
                             }
